@@ -6,6 +6,7 @@ import Ivg.Gen.Tie.EncoderFields
 import Ivg.Gen.Tie.RendererFields
 import Ivg.Gen.Tie.LoggerForwards
 import Ivg.Gen.Tie.Code.RenderRegs
+import Ivg.Gen.Tie.Code.Resolve
 import Ivg.Obligations
 /-!
 # C07 — selector clause: the Encoder and the Renderer report the same CSEL / NSEL
@@ -228,4 +229,9 @@ end Ivg.Props.C07
   Ivg.Gen.Tie.renderer_SetNReg_code_tie,
   Ivg.Gen.Tie.positiveInfinity_code_tie,
   Ivg.Gen.Tie.renderer_Reset_code_tie,
-  Ivg.Gen.Tie.renderer_Reset_code_tie_frame]
+  Ivg.Gen.Tie.renderer_Reset_code_tie_frame,
+  -- regenerated code with loops/recursion (translator, fuel) = model, for all inputs and sufficient fuel: Resolve
+  Ivg.Gen.Tie.color_Resolve_code_tie,
+  Ivg.Gen.Tie.color_Resolve_code_tie_badTyp,
+  Ivg.Gen.Tie.renderer_SetCReg_code_tie,
+  Ivg.Gen.Tie.renderer_SetCReg_code_tie']
